@@ -177,7 +177,7 @@ def _tlc(spec, cfg, args, env=None, timeout=1500, heap="8g"):
         except ValueError:
             nw = JOBS
     cmd = ["java", "-XX:+UseParallelGC", "-XX:ParallelGCThreads=%d" % max(2, min(8, nw)), "-XX:CICompilerCount=2", "-Xmx" + heap,
-           "-cp", TLC_JAR, "tlc2.TLC", "-metadir", md, "-config", cfg] + args + [spec]
+           "-cp", TLC_JAR, "tlc2.TLC", "-noGenerateSpecTE", "-metadir", md, "-config", cfg] + args + [spec]
     t0 = time.time()
     slot = _tlc_slot()
     try:
